@@ -172,7 +172,93 @@ def module_globals(tree, repo, relpath):
     return out | sc.bound
 
 
+def exception_ctors(repo):
+    """class name -> list of __init__ parameter names (without self) for the classes of ioflo/base/excepting.py"""
+    path = os.path.join(repo, "ioflo", "base", "excepting.py")
+    import warnings
+    with warnings.catch_warnings():
+        warnings.simplefilter("ignore")
+        tree = ast.parse(open(path).read(), path)
+    out = {}
+    for st in tree.body:
+        if isinstance(st, ast.ClassDef):
+            init = [f for f in st.body if isinstance(f, ast.FunctionDef) and f.name == "__init__"]
+            if not init:
+                continue
+            a = init[0].args
+            if a.vararg or a.kwarg or a.kwonlyargs or a.posonlyargs:
+                raise Untranslatable("excepting.%s.__init__: variadic signature" % st.name)
+            out[st.name] = [x.arg for x in a.args[1:]]
+    return out
+
+
+def raise_call(exc, ctors):
+    """-> (class name, npos, [kw names]) when exc is a call of an excepting class, else None"""
+    if not isinstance(exc, ast.Call):
+        return None
+    f = exc.func
+    if isinstance(f, ast.Attribute) and isinstance(f.value, ast.Name) and f.value.id == "excepting":
+        cls = f.attr
+    elif isinstance(f, ast.Name) and f.id in ctors:
+        cls = f.id
+    else:
+        return None
+    if cls not in ctors:
+        raise Untranslatable("raise of unknown class excepting.%s" % cls)
+    if any(isinstance(a, ast.Starred) for a in exc.args) or any(k.arg is None for k in exc.keywords):
+        raise Untranslatable("starred arguments in raise excepting.%s(...)" % cls)
+    return cls, len(exc.args), [k.arg for k in exc.keywords]
+
+
+def rear_guard_in_force(repo):
+    """True iff Builder.buildRear still contains the test  `... schedule not in ['aux']`  whose body raises
+    excepting.ParseError -- the guard that keeps every schedule other than aux away from Rearer._resolve"""
+    path = os.path.join(repo, "ioflo", "base", "building.py")
+    import warnings
+    with warnings.catch_warnings():
+        warnings.simplefilter("ignore")
+        tree = ast.parse(open(path).read(), path)
+    for cls in tree.body:
+        if isinstance(cls, ast.ClassDef) and cls.name == "Builder":
+            for fn in cls.body:
+                if isinstance(fn, ast.FunctionDef) and fn.name == "buildRear":
+                    for n in ast.walk(fn):
+                        if not isinstance(n, ast.If):
+                            continue
+                        tests = n.test.values if isinstance(n.test, ast.BoolOp) and isinstance(n.test.op, ast.Or) \
+                            else [n.test]
+                        hit = any(isinstance(t, ast.Compare) and isinstance(t.left, ast.Name) and t.left.id == "schedule"
+                                  and len(t.ops) == 1 and isinstance(t.ops[0], ast.NotIn)
+                                  and isinstance(t.comparators[0], (ast.List, ast.Tuple))
+                                  and [getattr(e, "value", None) for e in t.comparators[0].elts] == ["aux"]
+                                  for t in tests)
+                        raises = any(isinstance(b, ast.Raise) and isinstance(b.exc, ast.Call)
+                                     and isinstance(b.exc.func, ast.Attribute) and b.exc.func.attr == "ParseError"
+                                     for b in n.body)
+                        if hit and raises:
+                            return True
+    return False
+
+
+def rearer_resolve_lines(repo):
+    """line numbers of the raise statements inside class Rearer, method _resolve (ioflo/base/acting.py)"""
+    path = os.path.join(repo, "ioflo", "base", "acting.py")
+    import warnings
+    with warnings.catch_warnings():
+        warnings.simplefilter("ignore")
+        tree = ast.parse(open(path).read(), path)
+    out = set()
+    for cls in tree.body:
+        if isinstance(cls, ast.ClassDef) and cls.name == "Rearer":
+            for fn in cls.body:
+                if isinstance(fn, ast.FunctionDef) and fn.name == "_resolve":
+                    out |= {n.lineno for n in ast.walk(fn) if isinstance(n, ast.Raise)}
+    return out
+
+
 def extract(repo):
+    ctors = exception_ctors(repo)
+    raises = []     # dict(file, line, cls, npos, kws)
     sites = []      # dict(file, line, style, tpl, nargs, kws)
     uses = []       # dict(file, line, func, names, scope_id)
     scopes = []     # list of sorted name lists (function locals + class-level names are NOT included)
@@ -206,6 +292,10 @@ def extract(repo):
                     here = None
                     if isinstance(st, ast.Raise) and st.exc is not None:
                         here = st
+                        rc = raise_call(st.exc, ctors)
+                        if rc:
+                            raises.append({"file": rel, "line": st.lineno, "func": fn.name, "cls": rc[0], "npos": rc[1],
+                                           "kws": rc[2]})
                         if isinstance(st.exc, ast.Call) and st.exc.args:
                             where = "%s:%d" % (rel, st.lineno)
                             for c in pieces(st.exc.args[0], where):
@@ -236,7 +326,14 @@ def extract(repo):
                 for sub in st.body:
                     if isinstance(sub, (ast.FunctionDef, ast.AsyncFunctionDef)):
                         walk_fn(sub, set())
-    return {"sites": sites, "uses": uses, "scopes": scopes, "globals": globs,
+    # the ONE justified exemption of the signature obligation: Rearer._resolve's "Invalid schedule" raise
+    # (keyword msg=).  It is unreachable from a script only while buildRear rejects every schedule but aux.
+    guard = rear_guard_in_force(repo)
+    rl = rearer_resolve_lines(repo)
+    exempt = [{"file": r["file"], "line": r["line"], "guard": guard,
+               "why": "Rearer._resolve invalid-schedule branch; guarded by Builder.buildRear `schedule not in ['aux']`"}
+              for r in raises if r["file"] == "ioflo/base/acting.py" and r["line"] in rl and "msg" in r["kws"]]
+    return {"exempt": exempt, "ctors": ctors, "raises": raises, "sites": sites, "uses": uses, "scopes": scopes, "globals": globs,
             "builtins": sorted(dir(builtins))}
 
 
@@ -290,6 +387,22 @@ def render(t):
         rows.append("  mkuse %d %d %d [%s]" % (files[u["file"]], u["line"], u["scope"] + 1,
                                                "; ".join(str(nid(n)) for n in u["names"])))
     L.append(";\n".join(rows))
+    L.append("].")
+    L.append("")
+    cids = {c: i + 1 for i, c in enumerate(sorted(t["ctors"]))}
+    L.append("(* exception classes of ioflo/base/excepting.py: %s *)" % ", ".join("%d=%s" % (i, c) for c, i in cids.items()))
+    L.append("Definition ctor_params (cls : N) : list N :=")
+    L.append("  match cls with")
+    for c, i in cids.items():
+        L.append("  | %d => [%s]  (* %s(%s) *)" % (i, "; ".join(str(nid(p)) for p in t["ctors"][c]), c, ", ".join(t["ctors"][c])))
+    L.append("  | _ => []")
+    L.append("  end.")
+    L.append("(* exempt raise sites (file, line, guard in force): %s *)" % "; ".join(e["why"] for e in t["exempt"]))
+    L.append("Definition exempt_sites : list (N * N * bool) := [%s]." % "; ".join(
+        "(%d, %d, %s)" % (files[e["file"]], e["line"], "true" if e["guard"] else "false") for e in t["exempt"]))
+    L.append("Definition raises : list rsite := [")
+    L.append(";\n".join("  mkrsite %d %d %d %d [%s]" % (files[r["file"]], r["line"], cids[r["cls"]], r["npos"],
+                                                        "; ".join(str(nid(k)) for k in r["kws"])) for r in t["raises"]))
     L.append("].")
     L.append("")
     L.append("(* name ids: %s *)" % " ".join("%d=%s" % (i, n) for n, i in sorted(ids.items(), key=lambda x: x[1])))
